@@ -25,6 +25,17 @@ tie    : T  translate/t_proj.py regenerates coq/gen/Proj.v from methods/*.hpp, m
             * with MIXED MAGNITUDES on the exact stream (mean tiny against the data and vice versa);
             * over NON-IDENTITY ITERATOR RANGES (offset blocks, permutations, subsets of a larger data set with
               decoy samples): row k belongs to sample ids[k] (theorem C07_project_over_index_range).
+         Wave 3 — data with a large common OFFSET relative to its spread (offset/spread 2^20 ~ 1e6, 2^30 ~ 1e9,
+            2^40 ~ 1e12, and mixed per-feature offsets) on every stream.  The model is offset-invariant (theorems
+            C07_offset_invariant / C07_tail_offset_invariant: same embedding, mean moved by the offset), so the
+            OUTPUT does not grow with the offset, and "reproduces the embedding" is judged with a tolerance relative
+            to the output: |y_c - (P^T (x - m))_c| <= eps * sum_t |P_tc| |x_t - m_t| with eps = 4 (D + 2) 2^-53
+            (the componentwise forward-error bound of evaluating P^T (x - m) in binary64 in any order; extracted
+            decision procedures is_projection_rel_b / rows_rel_b, theorem C07_decision_rel_sound).  On the exact
+            stream the offset data is dyadic with x - m, the products and the sums exactly representable, so the
+            shipped expression is still EXACT (== model), while a rewrite that does not form x - m first (P^T x -
+            P^T m: equal over every exact field, theorem project_hoisted_mean_equal) rounds at the magnitude of the
+            offset and fails by many orders of magnitude.
 search : when an obligation or the correspondence breaks, a larger budget of public-API cases is run
          through the same decision procedures.
 """
@@ -52,10 +63,14 @@ TRUSTED = [
     "harness/c07.cpp + harness/spectral_common.hpp (hex-float transport; reads proj_mat/mean_vec of the "
     "returned MatrixProjectionImplementation through dynamic_cast)",
     "IEEE rounding: exact only on the dyadic stream; public-API outputs are checked by the exact rational "
-    "decision procedure with tolerance 1e-11 * scale (tolerance stream)",
+    "decision procedures with a forward-error shaped tolerance (tolerance stream); the rounding model behind that "
+    "tolerance (standard model of binary64 arithmetic, gamma_n bounds) is not formalised",
     "the projection matrix P itself is an oracle value here (what each method computes before the tail of "
     "embed() is the subject of C06/C10/C19)",
-    "tolerances on the public-API stream are RELATIVE: 1e-11 * max|P| * (max|x| + max|mean|) * D, no absolute floor",
+    "tolerances on the public-API stream are relative to the OUTPUT: 4 (D + 2) 2^-53 * sum_t |P_tc| |x_t - mean_t| per "
+    "entry (the componentwise forward-error bound of P^T (x - m) in binary64; twice that between projection(x_i) and "
+    "row i); the stored mean against the training mean: 1e-11 * max|x| * N (its rounding error is relative to |x|); "
+    "an affine combination that had to be rounded to binary64 adds 2^-52 * max|P| * max|q| * D",
     "g++ ASan + _GLIBCXX_ASSERTIONS as the memory-safety observer (UBSan in addition in the thorough tier only: the "
     "driver instantiates all twenty methods and UBSan adds 25 s to its build)",
 ]
@@ -131,6 +146,111 @@ def gen_matrix(rng, n, m, style):
     if style == "generic":     # arbitrary doubles
         return [[Fraction(rng.uniform(-5, 5)) for _ in range(m)] for _ in range(n)]
     raise ValueError(style)
+
+
+OFFSET_EXPS = [20, 30, 40]          # offset/spread about 1e6, 1e9, 1e12
+
+
+def offset_plan(rng, D, kind):
+    """per-feature (offset, fractional bits) for data = offset + spread, spread in [-1, 1].
+    kind = an exponent E (every feature offset by k * 2^E, k in +-1..7) or 'mixed' (each feature its own exponent
+    out of none / 20 / 30 / 40, at least one offset feature)."""
+    if kind == "mixed":
+        exps = [rng.choice([None, 20, 30, 40]) for _ in range(D)]
+        if all(e is None for e in exps):
+            exps[rng.randrange(D)] = rng.choice(OFFSET_EXPS)
+    else:
+        exps = [kind] * D
+    plan = []
+    for e in exps:
+        if e is None:
+            plan.append((Fraction(0), None))
+        else:
+            plan.append((Fraction(rng.choice([-1, 1]) * rng.randint(1, 7) * 2 ** e), e))
+    return plan
+
+
+def offset_vector(rng, plan, headroom):
+    """one sample: feature j = offset_j + s_j with s_j in [-1, 1] on the grid 2^-g_j, g_j = 49 - headroom - E_j,
+    so that |x_j| < 2^(E_j + 3) occupies at most 52 - headroom bits: sums of 2^headroom such numbers, and affine
+    combinations with weights k / 2^headroom, are exactly representable"""
+    v = []
+    for off, e in plan:
+        g = 20 if e is None else 49 - headroom - e
+        v.append(off + Fraction(rng.randint(-(1 << g), 1 << g), 1 << g))
+    return v
+
+
+def offset_matrix(rng, n, plan, headroom):
+    return [offset_vector(rng, plan, headroom) for _ in range(n)]
+
+
+def offset_style(kind):
+    return "offset-mixed" if kind == "mixed" else "offset-2^%d" % kind
+
+
+def is_offset_style(c):
+    return str(c.get("style", "")).startswith("offset-")
+
+
+def gen_offset_internal(rng, n_each):
+    """exact stream on large-offset data.  P has entries on the grid 1/8 in [-8, 8] (7 bits), x and m live on the
+    grid 2^-g with g = 46 - E (|x|, |m| < 2^(E+3), 49 bits), so x - m (|.| <= 2, grid 2^-g) is computed EXACTLY by one
+    binary64 subtraction, and every product P_tc (x_t - m_t) and every partial sum of at most 8 of them (grid
+    2^-(g+3), below 2^7: at most g + 10 <= 36 bits) is exact in any summation order: the shipped P^T (x - m) must
+    equal the rational model exactly, whatever the offset.  P^T x and P^T m on their own need 56 bits."""
+    cases = []
+    kinds = OFFSET_EXPS + ["mixed"]
+    for j in range(n_each):
+        kind = kinds[j % len(kinds)]
+        D = rng.choice([1, 2, 3, 4, 6, 8])
+        d = rng.randint(1, max(1, min(D, 4)))
+        plan = offset_plan(rng, D, kind)
+        P = gen_matrix(rng, D, d, "dyadic")
+        m = offset_vector(rng, plan, 3)
+        st = offset_style(kind)
+        cases.append({"kind": "MPI", "D": D, "d": d, "P": P, "m": m, "x": offset_vector(rng, plan, 3), "style": st,
+                      "exact": True})
+        N = rng.choice([1, 2, 3, 5, 8])
+        cases.append({"kind": "PROJ", "D": D, "d": d, "N": N, "P": P, "m": m, "X": offset_matrix(rng, N, plan, 3),
+                      "style": st, "exact": True})
+        # the mean: N = 2^n samples with n bits of headroom -> every partial sum is exact
+        n = rng.choice([0, 1, 2, 3, 4])
+        cases.append({"kind": "MEAN", "D": D, "N": 1 << n, "X": offset_matrix(rng, 1 << n, plan, n + 1), "style": st,
+                      "exact": True})
+    return cases
+
+
+def gen_offset_emb(rng, meth, kind, N=None, exact_grid=True):
+    """public API on large-offset data: offset + spread in [-1, 1]; dyadic grid (affine combinations with weights
+    k/8 are exactly representable, the mean is exact when N is a power of two up to 8) or arbitrary doubles"""
+    if meth in NEIGHBOUR_BASED:
+        D = rng.choice([2, 3])
+        N = N or rng.choice([12, 16, 20])
+        d = rng.randint(1, 2)
+        k = rng.choice([5, 6, 8])
+    else:
+        D = rng.choice([1, 2, 3, 4, 6])
+        N = N or rng.choice([2, 4, 8, 3, 5, 7, 12, 20])
+        d = rng.randint(1, max(1, min(D, N - 1)))
+        k = 5
+    plan = offset_plan(rng, D, kind)
+    if exact_grid:
+        X = offset_matrix(rng, N, plan, 3)
+    else:
+        X = [[Fraction(float(off) + rng.uniform(-1, 1)) for off, _ in plan] for _ in range(N)]
+    # unseen vectors near the data (same offsets) and one far from it; affine combinations of samples
+    Q = [offset_vector(rng, plan, 3), [dyadic(rng, -20, 20) for _ in range(D)]]
+    combos = []
+    for _ in range(3):
+        i, j = rng.randrange(N), rng.randrange(N)
+        a = Fraction(rng.choice([0, 1, 2, 3, 4, 5, 6, 7, 8, -4, 12]), 8)
+        exact_q = [a * X[i][t] + (1 - a) * X[j][t] for t in range(D)]
+        q = [Fraction(float(v)) for v in exact_q]
+        combos.append({"i": i, "j": j, "a": a, "q": len(Q)})
+        Q.append(q)
+    return {"kind": "EMB", "method": meth, "solver": "dense", "N": N, "D": D, "d": d, "k": k, "X": X, "Q": Q,
+            "combos": combos, "style": offset_style(kind) + ("" if exact_grid else "-generic")}
 
 
 def gen_internal(rng, n_each):
@@ -466,7 +586,7 @@ def run_impl(ctx, exe, cases):
                 if w[0] == "C" and len(w) == 2:
                     cur = start + int(w[1])
                     if 0 <= cur < len(cases):
-                        results[cur] = {"R": {}, "X": None, "crashed": None, "ended": False}
+                        results[cur] = {"R": {}, "X": None, "crashed": None, "ended": False, "timed_out_": False}
                     else:
                         cur = None
                 elif cur is None:
@@ -485,12 +605,13 @@ def run_impl(ctx, exe, cases):
         if cur is None or results[cur] is None or results[cur]["ended"]:
             cur = start if cur is None else min(cur + 1, len(cases) - 1)
             if results[cur] is None:
-                results[cur] = {"R": {}, "X": None, "crashed": None, "ended": False}
+                results[cur] = {"R": {}, "X": None, "crashed": None, "ended": False, "timed_out_": False}
         results[cur]["crashed"] = "timeout" if r.timed_out else (r.sanitizer or r.err[-600:] or "rc=%d" % r.rc)
+        results[cur]["timed_out_"] = bool(r.timed_out)
         start = cur + 1
     for i, x in enumerate(results):
         if x is None:
-            results[i] = {"R": {}, "X": None, "crashed": "no output for this case", "ended": False}
+            results[i] = {"R": {}, "X": None, "crashed": "no output for this case", "ended": False, "timed_out_": False}
     return results
 
 
@@ -542,6 +663,71 @@ def maxabs(*mats):
 
 
 TOL_REL = Fraction(1, 10 ** 11)
+UNIT_ROUNDOFF = Fraction(1, 2 ** 53)
+OUT_REL_TXT = " to rounding error of the OUTPUT (|y_c - s_c| <= 4 (D + 2) 2^-53 * sum_t |P_tc| |x_t - m_t|)"
+
+
+def eps_out(D):
+    """tolerance factor RELATIVE TO THE OUTPUT: evaluating P^T (x - m) in binary64 (one rounding for each x_t - m_t,
+    D products, D - 1 additions in any order, with or without fused multiply-add) has the componentwise forward
+    error <= gamma_(D+1) * A_c with A_c = sum_t |P_tc| |x_t - m_t|; 4 (D + 2) u leaves a factor ~4 of slack"""
+    return 4 * (D + 2) * UNIT_ROUNDOFF
+
+
+def abs_image(P, m, x, D, d):
+    """A_c = sum_t |P_tc| |x_t - m_t| (exact rationals)"""
+    dx = [abs(x[t] - m[t]) for t in range(D)]
+    return [sum((abs(P[t][c]) * dx[t] for t in range(D)), Fraction(0)) for c in range(d)]
+
+
+# NPE and LLTSA search their neighbours with the distance DERIVED FROM THE KERNEL, sqrt(k(x,x) - 2 k(x,y) + k(y,y)).
+# With the linear kernel on data whose common offset is large against its spread that expression cancels
+# catastrophically: the values are quantised at sqrt(ulp(|x|^2)), distinct points get distance 0 and the triangle
+# inequality fails.  The tree-based searches then return fewer than k neighbours for some sample and every consumer
+# (k = neighbors[0].size()) indexes past the end of that list (abort under _GLIBCXX_ASSERTIONS, out-of-bounds read
+# otherwise).  Found by the wave-3 offset sweep of this check, reported to the coordinator as F48 with a repair
+# (fixes/F48_knn_incomplete_neighborhood_fallback.patch); neighbour search is C02's subject, not C07's.
+KERNEL_DISTANCE_METHODS = ("npe", "lltsa")
+F48 = "F48-knn-incomplete-neighbourhood-nonmetric-kernel-distance"
+F48_WHY = (" [the distance derived from the linear kernel, sqrt(k(x,x) - 2k(x,y) + k(y,y)), replayed in binary64 on this "
+           "data is not a metric (zero between distinct samples / triangle inequality violated by cancellation): the "
+           "tree-based neighbour search returns fewer than k neighbours and its consumers index k of them]")
+
+
+def kernel_distance_not_a_metric(X):
+    """binary64 replay of KernelDistance::distance with the linear kernel (dot products accumulated left to right; the
+    decision below does not depend on the summation order beyond an ulp): True when some pair of DISTINCT samples is
+    at distance 0 / NaN, or the triangle inequality fails by more than a relative 1e-9"""
+    import math
+    n = len(X)
+    if n > 64:
+        X = X[:64]
+        n = 64
+    xs = [[float(v) for v in row] for row in X]
+
+    def dot(a, b):
+        acc = 0.0
+        for u, v in zip(a, b):
+            acc += u * v
+        return acc
+    kk = [dot(a, a) for a in xs]
+    dist = [[0.0] * n for _ in range(n)]
+    for i in range(n):
+        for j in range(n):
+            if i == j:
+                continue
+            v = kk[i] - 2 * dot(xs[i], xs[j]) + kk[j]
+            if v != v or v < 0:
+                return True
+            dist[i][j] = math.sqrt(v)
+            if dist[i][j] == 0.0 and xs[i] != xs[j]:
+                return True
+    for i in range(n):
+        for j in range(n):
+            for l in range(n):
+                if dist[i][j] > (dist[i][l] + dist[l][j]) * (1 + 1e-9):
+                    return True
+    return False
 
 
 class Stats:
@@ -581,8 +767,19 @@ def evaluate(ctx, exe, mexe, cases, st, record=True):
             continue
         if r["crashed"]:
             if concerns:
-                viol(i, "the implementation aborts / hangs on this input (%s %s): %s" % (
-                    c["kind"], c.get("method", ""), crash_text(r["crashed"])))
+                why = "the implementation aborts / hangs on this input (%s %s): %s" % (
+                    c["kind"], c.get("method", ""), crash_text(r["crashed"]))
+                if c["kind"] == "EMB" and c["method"] in KERNEL_DISTANCE_METHODS and r["timed_out_"] is False \
+                        and kernel_distance_not_a_metric(train(c)):
+                    # strict match: reported under the signature only when a replay of the kernel-derived distances
+                    # in binary64 shows that they are not a metric on this data
+                    verdicts[i] = "known"
+                    st.bump(st.skipped, c["method"] + ":F48-nonmetric-kernel-distance")
+                    if record and not ctx.violation(case_json(c), why + F48_WHY, signature=F48):
+                        continue
+                    verdicts[i] = "violation"
+                    continue
+                viol(i, why)
             else:
                 verdicts[i] = "skip"
                 st.bump(st.skipped, c["method"] + ":crash")
@@ -608,6 +805,9 @@ def evaluate(ctx, exe, mexe, cases, st, record=True):
             model_owner.append(i)
             Xt = train(c) if c["kind"] != "MPI" else None
             tol = Fraction(0) if c.get("exact", True) else TOL_REL * maxabs(Xt) * c["N"]
+            # large-offset data: the verdict is "within a few ulps of the OUTPUT" (is_projection_rel_b); the exact
+            # comparison with the model below still has to hold (a disagreement is "no longer shown")
+            rel_cmd, rel_eps = ("SPRR", fr_hex(eps_out(c["D"]))) if is_offset_style(c) else ("SPRJ", "0")
             if c["kind"] == "MEAN":
                 if got[0] != c["D"]:
                     viol(i, "compute_mean returned %d entries for dimension %d" % (got[0], c["D"]))
@@ -622,23 +822,25 @@ def evaluate(ctx, exe, mexe, cases, st, record=True):
                     viol(i, "project returned a %dx%d matrix, expected %dx%d" % (got[0], got[1], c["N"], c["d"]))
                     continue
                 for rix, row in enumerate(got[2]):
-                    spec_lines.append("SPRJ %d %d 0 %s %s %s %s" % (
-                        c["D"], c["d"], " ".join(fr_hex(x) for x in flat(c["P"])),
+                    spec_lines.append("%s %d %d %s %s %s %s %s" % (
+                        rel_cmd, c["D"], c["d"], rel_eps, " ".join(fr_hex(x) for x in flat(c["P"])),
                         " ".join(fr_hex(x) for x in c["m"]), " ".join(fr_hex(x) for x in Xt[rix]),
                         " ".join(fr_hex(x) for x in row)))
-                    spec_owner.append((i, "row %d of project(P, m, [begin, end)) is not P^T (x - m) for the sample "
+                    spec_owner.append((i, "row %d of project(P, m, [begin, end)) is not P^T (x - m)%s for the sample "
                                           "the iterator range names at position %d%s" % (
-                                              rix, rix, "" if c.get("ids") is None else " (sample id %d)" % c["ids"][rix])))
+                                              rix, OUT_REL_TXT if rel_cmd == "SPRR" else "", rix,
+                                              "" if c.get("ids") is None else " (sample id %d)" % c["ids"][rix])))
             else:
                 if got[0] != c["d"]:
                     viol(i, "MatrixProjectionImplementation::project returned %d entries, expected %d" % (got[0], c["d"]))
                     continue
                 y = [row[0] for row in got[2]]
-                spec_lines.append("SPRJ %d %d 0 %s %s %s %s" % (
-                    c["D"], c["d"], " ".join(fr_hex(x) for x in flat(c["P"])),
+                spec_lines.append("%s %d %d %s %s %s %s %s" % (
+                    rel_cmd, c["D"], c["d"], rel_eps, " ".join(fr_hex(x) for x in flat(c["P"])),
                     " ".join(fr_hex(x) for x in c["m"]), " ".join(fr_hex(x) for x in c["x"]),
                     " ".join(fr_hex(x) for x in y)))
-                spec_owner.append((i, "MatrixProjectionImplementation(P, m).project(x) is not P^T (x - m)"))
+                spec_owner.append((i, "MatrixProjectionImplementation(P, m).project(x) is not P^T (x - m)%s" % (
+                    OUT_REL_TXT if rel_cmd == "SPRR" else "")))
             continue
         # ---- EMB
         meth = c["method"]
@@ -706,32 +908,54 @@ def evaluate(ctx, exe, mexe, cases, st, record=True):
         spec_lines.append("SOUT %d %d %d %s %s %s %s %s" % (N, D, d, fr_hex(max(tol, mtol)), xs,
                                                            " ".join(fr_hex(x) for x in flat(emb[2])), ps, ms))
         spec_owner.append((i, "%s: embedding rows are not P^T (x_i - mean) for the returned matrix and mean" % meth))
-        # projection(x_i) reproduces row i
+        # ... and to rounding error of the OUTPUT (wave 3): a tolerance built from max|x| is blind to everything
+        # once the data has a large common offset
+        eps = eps_out(D)
+        spec_lines.append("SOUR %d %d %d %s %s %s %s %s" % (N, D, d, fr_hex(eps), xs,
+                                                           " ".join(fr_hex(x) for x in flat(emb[2])), ps, ms))
+        spec_owner.append((i, "%s: embedding rows are not P^T (x_i - mean) for the returned matrix and mean%s" % (
+            meth, OUT_REL_TXT)))
+        # projection(x_i) reproduces row i: both evaluate P^T (x_i - mean), each within eps * A_c of the exact value
+        A = [abs_image(P[2], mv, Xt[rix], D, d) for rix in range(N)]
         bad = None
         for rix in range(N):
             for cix in range(d):
-                if abs(pi[2][rix][cix] - emb[2][rix][cix]) > tol:
+                if abs(pi[2][rix][cix] - emb[2][rix][cix]) > 2 * eps * A[rix][cix]:
                     bad = (rix, cix)
                     break
             if bad:
                 break
         if bad:
-            viol(i, "%s: projection(x_%d) = %s differs from embedding.row(%d) = %s (tolerance %.3g, data scale %.3g%s)" % (
-                meth, bad[0], [float(v) for v in pi[2][bad[0]]], bad[0], [float(v) for v in emb[2][bad[0]]],
-                float(tol), float(maxabs(Xt)),
+            viol(i, "%s: projection(x_%d) = %s differs from embedding.row(%d) = %s (column %d: difference %.3g, tolerance "
+                    "%.3g = 2 * 4 (D + 2) 2^-53 * sum_t |P_tc| |x_t - mean_t|, i.e. relative to the output; data scale "
+                    "%.3g, spread about the mean %.3g%s)" % (
+                meth, bad[0], [float(v) for v in pi[2][bad[0]]], bad[0], [float(v) for v in emb[2][bad[0]]], bad[1],
+                float(abs(pi[2][bad[0]][bad[1]] - emb[2][bad[0]][bad[1]])), float(2 * eps * A[bad[0]][bad[1]]),
+                float(maxabs(Xt)), float(maxabs([[x - mm for x, mm in zip(row, mv)] for row in Xt])),
                 "" if c.get("ids") is None else "; iterator range position %d = sample id %d" % (bad[0], c["ids"][bad[0]])))
             continue
         if pi[2] == emb[2]:
             st.bitwise_pi += 1
         # unseen vectors and affine combinations
+        Aq = []
         for qi, q in enumerate(c["Q"]):
-            spec_lines.append("SPRJ %d %d %s %s %s %s %s" % (D, d, fr_hex(tol), ps, ms,
+            Aq.append(abs_image(P[2], mv, q, D, d))
+            spec_lines.append("SPRR %d %d %s %s %s %s %s" % (D, d, fr_hex(eps), ps, ms,
                                                             " ".join(fr_hex(x) for x in q),
                                                             " ".join(fr_hex(x) for x in pq[2][qi])))
-            spec_owner.append((i, "%s: projection(q_%d) is not P^T (q - mean) on an unseen vector" % (meth, qi)))
+            spec_owner.append((i, "%s: projection(q_%d) is not P^T (q - mean) on an unseen vector%s" % (
+                meth, qi, OUT_REL_TXT)))
         for cb in c["combos"]:
+            # the three observed values are each within eps * A of the exact affine map; if q itself had to be rounded
+            # to binary64 that rounding (relative to |x|, not to the output) is part of the tolerance
+            a = cb["a"]
+            atol = max(eps * (abs(a) * A[cb["i"]][cix] + abs(1 - a) * A[cb["j"]][cix] + Aq[cb["q"]][cix])
+                       for cix in range(d))
+            q_exact = all(c["Q"][cb["q"]][t] == a * Xt[cb["i"]][t] + (1 - a) * Xt[cb["j"]][t] for t in range(D))
+            if not q_exact:
+                atol += 2 * UNIT_ROUNDOFF * maxabs(P[2]) * maxabs([c["Q"][cb["q"]]]) * D
             spec_lines.append("SAFF %d %s %s %s %s %s" % (
-                d, fr_hex(tol), fr_hex(cb["a"]), " ".join(fr_hex(x) for x in pi[2][cb["i"]]),
+                d, fr_hex(atol), fr_hex(cb["a"]), " ".join(fr_hex(x) for x in pi[2][cb["i"]]),
                 " ".join(fr_hex(x) for x in pi[2][cb["j"]]), " ".join(fr_hex(x) for x in pq[2][cb["q"]])))
             spec_owner.append((i, "%s: projection is not affine: f(a x_%d + (1-a) x_%d) != a f(x_%d) + (1-a) f(x_%d), a = %s"
                                % (meth, cb["i"], cb["j"], cb["i"], cb["j"], cb["a"])))
@@ -896,6 +1120,21 @@ def build_cases(ctx, quick):
         generated += variants(rng, c, 3, 0)              # mixed magnitudes are already scale-specific
     for c in gen_boundary_internal(rng, BOUNDARY_N_QUICK if quick else BOUNDARY_N_THOROUGH, quick):
         generated += variants(rng, c, 0, 2 if quick else 1)
+    # wave 3: large common offsets (2^20, 2^30, 2^40 times the spread, mixed per-feature offsets), exact stream
+    for c in gen_offset_internal(rng, 8 if quick else 160):
+        generated += variants(rng, c, 3, 2 if quick else 1)
+    # ... and through the public API, all five methods (dyadic grid and arbitrary doubles), also at a boundary size
+    kinds = OFFSET_EXPS + ["mixed"]
+    for meth in FIVE:
+        reps = 1 if quick else (12 if meth in ("pca", "rp") else 4)
+        for r in range(reps):
+            for kind in kinds:
+                generated += variants(rng, gen_offset_emb(rng, meth, kind), 3, 3)
+                if meth in ("pca", "rp") or not quick:
+                    generated += variants(rng, gen_offset_emb(rng, meth, kind, exact_grid=False), 3, 3)
+        if meth in ("pca", "rp"):
+            for N in ([256, 257] if quick else [255, 256, 257, 512, 1025]):
+                generated += variants(rng, dict(gen_offset_emb(rng, meth, rng.choice(kinds), N=N), boundary=True), 3, 0)
     # public API
     n_emb = {"pca": 16, "rp": 10, "npe": 5, "lltsa": 5, "lpp": 5} if quick else \
             {"pca": 400, "rp": 200, "npe": 80, "lltsa": 80, "lpp": 80}
@@ -930,6 +1169,8 @@ def build_cases(ctx, quick):
             bump(hist, "boundary-size")
         if c.get("style") in ("tiny-mean", "tiny-data", "int+tiny"):
             bump(hist, "mixed-magnitude")
+        if is_offset_style(c):
+            bump(hist, "large-offset:" + c["style"])
     cases += generated
     for meth in OTHERS:
         cases.append(gen_other(rng, meth))
@@ -956,7 +1197,11 @@ def run(ctx):
         for meth in ("pca", "rp"):
             for N in BOUNDARY_N_THOROUGH:
                 extra += variants(ctx.rng, gen_boundary_emb(ctx.rng, meth, N), 3, 3)
-        for c in gen_internal(ctx.rng, 300) + gen_mixed(ctx.rng, 60) + \
+        for meth in FIVE:
+            for kind in OFFSET_EXPS + ["mixed"]:
+                for j in range(3 if meth in NEIGHBOUR_BASED else 10):
+                    extra += variants(ctx.rng, gen_offset_emb(ctx.rng, meth, kind, exact_grid=bool(j % 2)), 3, 3)
+        for c in gen_internal(ctx.rng, 300) + gen_mixed(ctx.rng, 60) + gen_offset_internal(ctx.rng, 80) + \
                 gen_boundary_internal(ctx.rng, BOUNDARY_N_THOROUGH, False):
             extra += variants(ctx.rng, c, 3, 1)
         v2 = evaluate(ctx, exe, mexe, extra, st)
@@ -1005,6 +1250,12 @@ def run(ctx):
              "every third generated case over a non-identity iterator range (offset block, permutation, subset, reversed, "
              "repeated ids; decoy samples elsewhere in the data set); every (internal: every second) case also as a scaled "
              "copy (data * 2^k, k in +-{10, 30, 40, 45, 52, 60}; input P * 2^j), tolerances relative to the data scale.  "
+             "Wave 3: data with a large common offset (k * 2^E + spread in [-1, 1], E in 20, 30, 40, and mixed per-feature "
+             "offsets): exact stream (dyadic grid on which x - m, products and sums are exact: implementation == model, "
+             "verdict by the output-relative decision procedure) and all five methods through the public API (dyadic "
+             "grid and arbitrary doubles, PCA / RandomProjection also at N = 256, 257); every public-API comparison "
+             "(embedding rows, projection(x_i) vs row i, unseen vectors, affine combinations) is judged relative to the "
+             "OUTPUT: eps * sum_t |P_tc| |x_t - m_t| with eps = 4 (D + 2) 2^-53.  "
              "non-trivial = "
              "projecting API case with N >= 3, MEAN/PROJ with N >= 2, MPI with D >= 2; distinct by hash of the case.",
         samples=samples,
